@@ -179,6 +179,11 @@ func genC06(rng *rand.Rand, n int, tier string, emit func(*Sx)) {
 			one(ctx[0] + "x" + string([]byte{byte(c)}) + ctx[1])
 		}
 	}
+	// long tokens: a literal, a bind name and an expression of a few hundred characters are one token each
+	long := strings.Repeat("ab1", 100)
+	for _, t := range []string{"/" + long, "/" + long + "/x", "/{" + long + "}", "/{a: /" + long + "/}", "/x" + long + "{b}", "/{" + long + ": **}"} {
+		one(t)
+	}
 	for i := 0; i < n; i++ {
 		d := genDerivation(rng)
 		switch rng.Intn(5) {
